@@ -190,3 +190,31 @@ Definition res_catch {A : Type} (tag : Z) (body handler : result A) : result A :
   | Ok v => Ok v
   | Err t => if t =? tag then handler else Err t
   end.
+(* ---- additions for the argument-handling glue of the command-line wrappers (cli/argument_parsing.py, get_args) ---- *)
+(* `kdict K V`: a dict whose keys have a type with a boolean equality test (strings as code-point lists, type objects):
+   insertion-ordered association list.  d[k] = v: an existing key keeps its place and gets the new value, a new key goes last *)
+Fixpoint kdict_set {K V : Type} (eqb : K -> K -> bool) (d : list (K * V)) (k : K) (v : V) : list (K * V) :=
+  match d with
+  | [] => [(k, v)]
+  | (k', v') :: r => if eqb k' k then (k', v) :: r else (k', v') :: kdict_set eqb r k v
+  end.
+Fixpoint kdict_find {K V : Type} (eqb : K -> K -> bool) (d : list (K * V)) (k : K) : option V :=
+  match d with
+  | [] => None
+  | (k', v) :: r => if eqb k' k then Some v else kdict_find eqb r k
+  end.
+(* d[k] (read): KeyError (Err tag) when the key is absent *)
+Definition kdict_get {K V : Type} (eqb : K -> K -> bool) (tag : Z) (d : list (K * V)) (k : K) : result V :=
+  match kdict_find eqb d k with Some v => Ok v | None => Err tag end.
+(* d.get(k, default) *)
+Definition kdict_get_default {K V : Type} (eqb : K -> K -> bool) (d : list (K * V)) (k : K) (default : V) : V :=
+  match kdict_find eqb d k with Some v => v | None => default end.
+(* `x or {}` / `x or []` on an Optional container, as a value: x's content when x is a container, the empty one for None
+   (an empty x is replaced by a NEW empty container, which has the same content) *)
+Definition opt_or_empty {A : Type} (o : option (list A)) : list A := match o with Some l => l | None => [] end.
+(* try: B except E: H with E the exception class of the LISTED tags and H ending in a raise (cfg["except_tag_lists"]) *)
+Definition res_catch_tags {A : Type} (tags : list Z) (body handler : result A) : result A :=
+  match body with
+  | Ok x => Ok x
+  | Err t => if zmem t tags then handler else Err t
+  end.
